@@ -36,7 +36,10 @@ def correspondence(ctx):
     cases, res = c01.run_cases(ctx, ctx.n(160, 3500), rational_share=0.8, with_sources=False)
     # for C03 only derivatives are compared (value/error/sources are C01's): drop sources, keep numbers
     res.rule = ("random expression DAGs as in C01 (80% in the rational fragment); observed r.derivative(m) for EVERY measurement m "
-                "of the session (sources and unrelated ones) and every derived object r; compared in Q with Model.Core.deriv. "
+                "of the session (sources and unrelated ones) and every derived object r; compared in Q with Model.Core.deriv; central "
+                "values include 0, 1, -1, 2, 10, 100 and equal values in distinct measurements, constants arrive as numpy scalars / "
+                "Fraction / bool, results are sometimes read before they are used; second phase: a value, an uncertainty or the "
+                "central value of an INTERMEDIATE result is changed, everything recalculated and observed again. "
                 "non-trivial = at least two derived objects, distinct by content")
     res.samples = [{"steps": c["steps"][:8]} for c in cases[:2] if "steps" in c]
     for c in cases:
